@@ -9,14 +9,35 @@ import (
 	"flag"
 	"fmt"
 	"os"
+	"os/exec"
 	"sort"
 	"strings"
 	"sync"
 	"time"
 
+	"github.com/canopy-network/canopy/lib"
+
 	"verifharness/c20lib"
 	"verifharness/mc"
 )
+
+// capsExe is the second build of this program (./check builds it as <this executable>caps) in which the three DEX
+// batch capacities of lib/certificate.go are overlaid with c20lib.SmallCaps; "" if it is missing or was built otherwise.
+func capsExe() string {
+	exe, err := os.Executable()
+	if err != nil {
+		return ""
+	}
+	p := exe + "caps"
+	if _, err = os.Stat(p); err != nil {
+		return ""
+	}
+	out, err := exec.Command(p, "-capsinfo").Output()
+	if err != nil || strings.TrimSpace(string(out)) != c20lib.SmallCaps {
+		return ""
+	}
+	return p
+}
 
 // tag = "<part>|<config>|<quick|thorough>"
 func route(j mc.BFSJob) mc.ExecResult {
@@ -46,6 +67,10 @@ func main() {
 	if mc.IsWorker() {
 		mc.ServeWorker(route)
 	}
+	if len(os.Args) > 1 && os.Args[1] == "-capsinfo" {
+		fmt.Println(lib.MaxDepositsPerDexBatch, lib.MaxWithdrawsPerDexBatch, lib.MaxOrdersPerDexBatch)
+		return
+	}
 	if len(os.Args) > 1 && os.Args[1] == "-probe" {
 		probe()
 		return
@@ -66,6 +91,14 @@ func main() {
 	}
 	pool := c20lib.NewPool(0)
 	defer pool.Close()
+	var capsPool *c20lib.Pool
+	if p := capsExe(); p != "" {
+		capsPool = c20lib.NewPool(0)
+		capsPool.Exe = p
+		defer capsPool.Close()
+	} else {
+		fmt.Println("NOTE: the small-batch-caps build (" + c20lib.SmallCaps + ") is not available; its searches are skipped")
+	}
 	cov := map[string]any{}
 	var totalStates int
 	var totalTrans int64
@@ -83,6 +116,15 @@ func main() {
 	run := func(part, cfg string, depth int, names func(p []int) []string, numOps int, opsFor func(path []int, info string) []int, share float64) {
 		tag := part + "|" + cfg + "|" + r.Tier
 		t0 := time.Now()
+		pool := pool
+		if strings.HasSuffix(cfg, c20lib.CapsLabel) {
+			if capsPool == nil {
+				notStarted = append(notStarted, fmt.Sprintf("%s/%s depth %d (small-caps build missing)", part, cfg, depth))
+				r.Exhaustive = false
+				return
+			}
+			pool = capsPool
+		}
 		// a search may use at most `share` of the tier's budget, so that one deep search cannot starve the others
 		own := t0.Add(time.Duration(float64(total) * share))
 		stop := func() bool { return r.Expired() || (share > 0 && time.Now().After(own)) }
@@ -142,6 +184,9 @@ func main() {
 	}
 	cov["transition_outcomes"] = oc
 	cov["distinct_outcome_classes"] = len(oc)
+	if capsPool != nil {
+		cov["small_batch_caps_build"] = "searches whose configuration ends in " + c20lib.CapsLabel + " ran in workers built from the same tree with lib.MaxDepositsPerDexBatch / MaxWithdrawsPerDexBatch / MaxOrdersPerDexBatch overlaid to " + c20lib.SmallCaps + " (5000 / 5000 / 10000 cannot be reached by bounded search); the master verified the constants with -capsinfo"
+	}
 	cov["wiring"] = c20lib.Wiring
 	cov["not_covered"] = c20lib.NotCovered
 	cov["worker_crashes"] = pool.Crashes
@@ -165,6 +210,17 @@ func doReplay(r *mc.Run) {
 		var res mc.ExecResult
 		if rp.Part == "A" {
 			res = c20lib.ExecA(rp.Mode, true, c20lib.PathA(rp.Ops))
+		} else if strings.HasSuffix(rp.Config, c20lib.CapsLabel) {
+			// found by the build with small batch capacities: replayed there
+			p := capsExe()
+			if p == "" {
+				fmt.Println("the small-batch-caps build is not available (run through ./check, which builds it)")
+				break
+			}
+			cp := c20lib.NewPool(1)
+			cp.Exe = p
+			res = cp.Exec("B|"+rp.Config+"|thorough", c20lib.PathB(rp.Config, rp.Ops))
+			cp.Close()
 		} else {
 			res = c20lib.ExecB(rp.Config, true, c20lib.PathB(rp.Config, rp.Ops))
 		}
